@@ -16,7 +16,7 @@ Tol == 2
 \* ------------------------------------------------------------------ compile
 Compile(e) ==
   /\ Chk(e.ok = 1 \/ e.errPositioned = 1, "C07", "compile-error-without-source-position", e.msg)
-  /\ Chk(e.ms <= 3000 + e.bytes, "C07", "compile-time-not-proportional-to-input", <<e.ms, e.bytes>>)
+  /\ Chk(e.ms <= 3000 + e.bytes, "C07", "compile-time-not-proportional-to-input", <<e.ms, e.bytes, e.rglobs>>)
 Recompile(e) ==
   Chk(\A k \in 1..Len(e.digests) : e.digests[k] = e.first, "C08", "same-input-compiled-to-different-diagrams", Cardinality({e.digests[k] : k \in 1..Len(e.digests)}))
 Fmt(e) ==
@@ -219,7 +219,7 @@ Serde(e) ==
 
 Crash(e) ==
   LET prop == CASE e.stage = "compile" -> "C07" [] e.stage = "fmt" -> "C03" [] e.stage = "layout" -> "C17" [] e.stage = "render" -> (IF stage = "layout" /\ FALSE THEN "C17" ELSE "C30") [] e.stage = "export" -> "C28" [] e.stage = "serde" -> "C26" [] OTHER -> "C17"
-  IN Chk(FALSE, prop, IF e.ev = "panic" THEN "stage-crashed" ELSE "stage-did-not-terminate", <<e.stage, IF "msg" \in DOMAIN e THEN e.msg ELSE "">>)
+  IN Chk(FALSE, prop, IF e.ev = "panic" THEN "stage-crashed" ELSE "stage-did-not-terminate", <<e.stage, IF "msg" \in DOMAIN e THEN e.msg ELSE "", IF "rglobs" \in DOMAIN e THEN e.rglobs ELSE 0>>)
 
 Init == l = 1 /\ tid = 0 /\ stage = "none"
 Next ==
